@@ -24,6 +24,7 @@ func init() {
 }
 
 func runC20(p *Prog, r *Report, tier string) {
+	checkCountRefusal(p, r, "R-GATE.refuse-count")
 	gs := &guardSpec{Guarded: map[string]string{c20Store: c20Mutex}, Exempt: map[string]string{}}
 	_, accs := checkGuardedBy(p, r, gs, "R-LOCK", "cmd/collector")
 	if len(accs) < 6 {
@@ -394,6 +395,19 @@ func runC20(p *Prog, r *Report, tier string) {
 				}
 			}
 		})
+		// everything the reply is computed from comes through the window: no element of the raw store is read beside it
+		var rawRead ssa.Instruction
+		eachInstr(q, func(in ssa.Instruction) {
+			if ia, ok := in.(*ssa.IndexAddr); ok && isStoreLoad(ia.X) {
+				rawRead = in
+			}
+		})
+		posRaw := p.instrPos(qslice)
+		if rawRead != nil {
+			posRaw = p.instrPos(rawRead)
+		}
+		r.Check(rawRead == nil, "R-VALUE.query", "cmd/collector.flowRecordHandler: entries are read through the window only", posRaw, "no flowRecords[i] beside records := flowRecords[len-count:]",
+			"an element of the whole store is read in the query handler beside the requested window: something in the reply (a length, a header, an entry) is computed from entries the query did not ask for", true)
 		r.Check(okT, "R-VALUE.query", "cmd/collector.flowRecordHandler: text response ranges over the window", p.instrPos(qslice), "for idx := range records { w.Write([]byte(records[idx])) }",
 			"the text response does not write every entry of the requested window in order", true)
 	}
@@ -723,4 +737,64 @@ func globalWrittenOutsideInit(p *Prog, gl *ssa.Global) bool {
 		})
 	}
 	return w
+}
+
+// checkCountRefusal: a query for n returns the last min(n, stored) entries for ANY n >= 0: the handler answers 4xx for
+// a count only when it could not be parsed or is negative - never for a non-negative count, however large.
+func checkCountRefusal(p *Prog, r *Report, rule string) {
+	f := p.Fn("cmd/collector.flowRecordHandler")
+	if f == nil || len(f.Blocks) == 0 {
+		r.Undecided(rule, "anchor: flowRecordHandler", "cmd/collector/collector.go", "not found")
+		return
+	}
+	var atoi *ssa.Call
+	eachInstr(f, func(in ssa.Instruction) {
+		if c, ok := in.(*ssa.Call); ok && (calleeName(&c.Call) == "strconv.Atoi" || calleeName(&c.Call) == "strconv.ParseInt" || calleeName(&c.Call) == "strconv.ParseUint") {
+			atoi = c
+		}
+	})
+	if atoi == nil {
+		r.Undecided(rule, fnKey(f)+": parse of the count parameter", p.pos(f.Pos()), "no strconv parse found")
+		return
+	}
+	var cnt *ssa.Extract
+	for _, e := range extractOf(atoi, 0) {
+		cnt = e
+	}
+	bad := ""
+	n := 0
+	w := &absWalker{MaxPaths: 20000}
+	w.OnInstr = func(st *absState, in ssa.Instruction) {
+		c, ok := in.(*ssa.Call)
+		if !ok || calleeName(&c.Call) != "net/http.Error" || len(c.Call.Args) != 3 || cnt == nil {
+			return
+		}
+		code, ok := constInt(c.Call.Args[2])
+		if !ok || code < 400 || code > 499 {
+			return
+		}
+		// only the reply that the count test leads to: the last branch taken before it compares the count (or tests the
+		// parse error)
+		if len(st.Conds) == 0 {
+			return
+		}
+		lastC := st.Conds[len(st.Conds)-1].If.Cond
+		about := false
+		for _, v := range backwardSlice(lastC, 40) {
+			if v == ssa.Value(cnt) || v == ssa.Value(atoi) {
+				about = true
+			}
+		}
+		if !about {
+			return
+		}
+		n++
+		lo, _ := st.boundsOf(st.linear(cnt))
+		if lo >= 0 {
+			bad = fmt.Sprintf("a count of %d or more is answered with %d at %s", lo, code, p.instrPos(in))
+		}
+	}
+	w.walk(newAbsState(), f.Blocks[0], 0)
+	r.Check(bad == "" && !w.Overflow, rule, fnKey(f)+": no non-negative count is refused", p.pos(f.Pos()), "4xx replies only for an unparsable or negative count",
+		bad+": a query for more entries than are stored must return all of them (the last min(n, stored)), not an error", true)
 }
